@@ -246,3 +246,14 @@ package lintcmd
 //@ func (*Command).printDiagnostics$1
 //@   requires 0 <= i && i < len(diagnostics) && 0 <= j && j < len(diagnostics)
 //@   ensures  [order] result == diagLess(diagnostics[i], diagnostics[j])
+
+//@ prop C20
+//@ extern go/version.IsValid(x string) bool
+//@   pure
+// -go accepts the literal "module" or a Go version with or without the "go" prefix
+//@ func (*versionFlag).Set
+//@   requires v != nil
+//@   modifies *v
+//@   ensures  [module]  s == "module" ==> result == nil && *v == "module"
+//@   ensures  [valid]   s != "module" && stdversion.IsValid(str_prefixof("go", s) ? s : "go" + s) ==> result == nil && *v == (str_prefixof("go", s) ? s : "go" + s)
+//@   ensures  [invalid] s != "module" && !stdversion.IsValid(str_prefixof("go", s) ? s : "go" + s) ==> result != nil && *v == old(*v)
